@@ -634,8 +634,11 @@ fn gen_world(rng: &mut Rng) -> World {
     let mut txs = Vec::new();
     let loud: Vec<usize> = (0..n_ent).filter(|i| matches!(kinds[*i], Kind::Authority { quiet: false, .. })).collect();
     let contracts: Vec<usize> = (0..n_ent).filter(|i| matches!(kinds[*i], Kind::Contract)).collect();
+    let auth_senders: Vec<usize> = (0..n_ent).filter(|i| matches!(kinds[*i], Kind::Authority { .. })).collect();
     for _ in 0..n_tx {
-        let from = if !loud.is_empty() && rng.chance(1, 5) { ent_addr(*rng.pick(&loud)) } else { sender_addr(rng.below(4) as usize) };
+        // delegated accounts send transactions too: "loud" ones (also re-authorized by authorization
+        // lists) and "quiet" ones (pre-delegated in the database, never re-authorized)
+        let from = if !auth_senders.is_empty() && rng.chance(1, 4) { ent_addr(*rng.pick(&auth_senders)) } else { sender_addr(rng.below(4) as usize) };
         let base = db.accounts.get(&from).map_or(0, |i| i.nonce);
         let nonce = *nonces.entry(from).or_insert(base);
         let wrong_nonce = rng.chance(1, 40);
@@ -918,20 +921,38 @@ fn prog_case(idx: u64, rng: &mut Rng, out: &mut Out, seed: u64) {
                 out.bump("prog_inner_frame_failed");
             }
         }
-        // a quiet pre-delegated account (never a sender, never re-authorized) keeps its nonce
+        // a quiet pre-delegated account (never re-authorized): its nonce advances only by its own
+        // executed transactions, and none of them is skipped as NonceTooLow
         for (a, k) in &w.entities {
             if let Kind::Authority { predelegated: Some(_), quiet: true } = k {
                 let n0 = w.db.accounts[a].nonce;
-                if final_nonce(&g_seq_raw.1, &w.db, *a) != Some(n0) {
-                    out.fail("delegated-account-nonce-advanced", format!("{a:x}: nonce {n0} -> {:?} with the guard on", final_nonce(&g_seq_raw.1, &w.db, *a)), replay.clone());
+                let mut own = 0u64;
+                for (i, t) in w.txs.iter().enumerate() {
+                    if t.caller == *a {
+                        out.bump("prog_tx_sent_by_quiet_delegated_account");
+                        match &g_seq_raw.0[i] {
+                            TxExecutionOutcome::Executed(_) => own += 1,
+                            TxExecutionOutcome::Skipped(grevm::InvalidTransaction::NonceTooLow { .. }) => {
+                                out.fail("delegated-account-later-transaction-invalidated", format!("tx {i} from {a:x} skipped as NonceTooLow with the guard on: {:?}", g_seq_raw.0[i]), replay.clone());
+                            }
+                            TxExecutionOutcome::Skipped(_) => {}
+                        }
+                    }
+                }
+                if final_nonce(&g_seq_raw.1, &w.db, *a) != Some(n0 + own) {
+                    out.fail("delegated-account-nonce-advanced", format!("{a:x}: nonce {n0} -> {:?} with the guard on, {own} own executed transactions", final_nonce(&g_seq_raw.1, &w.db, *a)), replay.clone());
                 }
             }
         }
     } else {
         for (a, k) in &w.entities {
             if let Kind::Authority { predelegated: Some(_), quiet: true } = k {
-                if final_nonce(&g_seq_raw.1, &w.db, *a) != Some(w.db.accounts[a].nonce) {
+                let own = w.txs.iter().enumerate().filter(|(i, t)| t.caller == *a && matches!(g_seq_raw.0[*i], TxExecutionOutcome::Executed(_))).count() as u64;
+                if final_nonce(&g_seq_raw.1, &w.db, *a) != Some(w.db.accounts[a].nonce + own) {
                     out.bump("prog_hazard_nonce_advanced_without_guard");
+                }
+                if w.txs.iter().enumerate().any(|(i, t)| t.caller == *a && matches!(g_seq_raw.0[i], TxExecutionOutcome::Skipped(grevm::InvalidTransaction::NonceTooLow { .. }))) {
+                    out.bump("prog_hazard_later_tx_invalidated_without_guard");
                 }
             }
         }
